@@ -233,12 +233,53 @@ URangeB(c) ==
                                        IF pts[i][3] THEN OpTerm(c.op, 555, pts[i][2] * Km) ELSE Adiabat(pts[i][2] * Km),
                                        Dec(15, -1), -2, Dec(25, -2)>>]] >>)
 
+(*************************** uniform grains: sizes and orientations as given; z-x-z Euler angles ************************************)
+(* documented: every grain gets the listed size (a negative size: 1 / number of grains) and the listed rotation matrix, or the
+   matrix of the listed z-x-z Euler angles (degrees):
+     [ c2 c1 - ct s1 s2   -c2 s1 - ct c1 s2   -s2 st ]
+     [ s2 c1 + ct s1 c2   -s2 s1 + ct c1 c2    c2 st ]        c1 = cos phi1, ct = cos theta, c2 = cos phi2 ...
+     [ -st s1             -st c1               ct    ]
+   Slabs and faults average the orientations of the two adjacent sections (identical here), so for them the matrices must be
+   proper rotations and come back up to rounding. *)
+SixTypes == AreaTypes \cup {"plume", "subducting plate", "fault"}
+GrainCase == [type : SixTypes, how : {"matrices", "euler"}, given : BOOLEAN]     \* given: the size is listed (0.3); else -1
+EulerM(a, b, c) ==
+  LET c1 == Cos(Rad(a))  s1 == Sin(Rad(a))  ct == Cos(Rad(b))  st == Sin(Rad(b))  c2 == Cos(Rad(c))  s2 == Sin(Rad(c)) IN
+  << Sub(Mul(c2, c1), Mul(ct, Mul(s1, s2))), Sub(Mul(-1, Mul(c2, s1)), Mul(ct, Mul(c1, s2))), Mul(-1, Mul(s2, st)),
+     Add(Mul(s2, c1), Mul(ct, Mul(s1, c2))), Add(Mul(-1, Mul(s2, s1)), Mul(ct, Mul(c1, c2))), Mul(c2, st),
+     Mul(-1, Mul(st, s1)), Mul(-1, Mul(st, c1)), ct >>
+GrainB(c) ==
+  LET line == c.type \in {"subducting plate", "fault"}
+      rot == << <<0, -1, 0>>, <<1, 0, 0>>, <<0, 0, 1>> >>                   \* a quarter turn about the vertical
+      given == IF line THEN rot ELSE Mat(1)
+      gm == ("model" :> "uniform") @@ ("compositions" :> <<2>>) @@ ("grain sizes" :> <<IF c.given THEN Dec(3, -1) ELSE -1>>)
+            @@ (IF c.how = "matrices" THEN ("rotation matrices" :> <<given>>) ELSE ("Euler angles z-x-z" :> <<<<10, 20, 30>>>>))
+      want9 == IF c.how = "matrices" THEN <<given[1][1], given[1][2], given[1][3], given[2][1], given[2][2], given[2][3], given[3][1], given[3][2], given[3][3]>>
+               ELSE EulerM(10, 20, 30)
+      sz == IF c.given THEN Dec(3, -1) ELSE Dec(5, -1)                         \* two grains are asked for
+      want == <<sz, sz>> \o want9 \o want9
+      doc == WorldOf(<<CASE c.type \in AreaTypes -> Area(c.type, "f", Rect1000, 0, 200 * Km, <<>>, <<>>, <<gm>>, <<>>)
+                         [] c.type = "plume" -> Plume("f", <<<<500 * Km, 500 * Km>>, <<500 * Km, 500 * Km>>>>, <<50 * Km, 300 * Km>>, <<100 * Km, 100 * Km>>, <<0, 0>>, <<0, 0>>,
+                                                     10 * Km, 400 * Km, <<>>, <<>>, <<gm>>, <<>>)
+                         [] OTHER -> Line(c.type, "f", <<<<500 * Km, -500 * Km>>, <<500 * Km, 1500 * Km>>>>, <<1500 * Km, 500 * Km>>, 0, 1000 * Km,
+                                          <<Segment(400 * Km, <<200 * Km>>, <<0>>, <<90>>)>>, <<>>, <<>>, <<gm>>, <<>>)>>)
+      x == IF c.type = "subducting plate" THEN 450 ELSE 500
+  IN B(<<"grains-uniform", c>>, <<"grains-uniform", c.type, c.how>>, doc,
+       << [op |-> "qtable", h |-> 1, dim |-> 3, props |-> <<PG(2, 2)>>,
+           checks |-> [i \in 1..20 |-> [k |-> "tol", at |-> i - 1, col |-> 3 + i, rel |-> Dec(1, -12), abs |-> Dec(1, -12)]],
+           rows |-> << <<x * Km, 500 * Km, HM - 100 * Km, 100 * Km>> \o want >>] >>
+       \* another composition label: no grains are set (area features and plumes; what slabs and faults do to labels they
+       \* do not list is C02's subject and its known finding)
+       \o (IF line THEN <<>> ELSE
+           << [op |-> "qtable", h |-> 1, dim |-> 3, props |-> <<PG(1, 2)>>, checks |-> [i \in 1..20 |-> [k |-> "eq", at |-> i - 1, col |-> 4]],
+               rows |-> << <<x * Km, 500 * Km, HM - 100 * Km, 100 * Km, 0>> >>] >>))
+
 VARIABLE case
-Cases ==    ({"uniform-range"} \X URangeCase) \cup ({"smooth"} \X SmoothCase) \cup    ({"linear"} \X LinearCase) \cup ({"linear-varying"} \X LinVarCase) \cup ({"uniform"} \X UniformCase) \cup ({"adiabatic"} \X AdCase) \cup ({"chapman"} \X ChapCase)
+Cases == ({"grains-uniform"} \X GrainCase) \cup    ({"uniform-range"} \X URangeCase) \cup ({"smooth"} \X SmoothCase) \cup    ({"linear"} \X LinearCase) \cup ({"linear-varying"} \X LinVarCase) \cup ({"uniform"} \X UniformCase) \cup ({"adiabatic"} \X AdCase) \cup ({"chapman"} \X ChapCase)
        \cup ({"cooling"} \X CoolCase) \cup ({"gaussian"} \X GaussCase) \cup ({"line-linear"} \X LineLinCase)
 Init == case \in Cases
 Next == UNCHANGED case
-Behaviour == CASE case[1] = "linear" -> LinearB(case[2]) [] case[1] = "linear-varying" -> LinVarB(case[2]) [] case[1] = "uniform" -> UniformB(case[2]) [] case[1] = "adiabatic" -> AdB(case[2])
+Behaviour == CASE case[1] = "grains-uniform" -> GrainB(case[2]) [] case[1] = "linear" -> LinearB(case[2]) [] case[1] = "linear-varying" -> LinVarB(case[2]) [] case[1] = "uniform" -> UniformB(case[2]) [] case[1] = "adiabatic" -> AdB(case[2])
                [] case[1] = "chapman" -> ChapB(case[2]) [] case[1] = "cooling" -> CoolB(case[2]) [] case[1] = "gaussian" -> GaussB(case[2])
                [] case[1] = "line-linear" -> LineLinB(case[2]) [] case[1] = "smooth" -> SmoothB(case[2]) [] case[1] = "uniform-range" -> URangeB(case[2])
 Emit == PrintT(<<"B", ToJson(Behaviour)>>)
